@@ -2787,6 +2787,27 @@ pub fn gen_cases(topic: &str, seed: u64, n: usize, path: &str) -> Result<(), Str
                 json!({"topic":"num","oracle":true,"wt":true,"src":src,"docs":docs,
                        "plan":{"tri":true,"sws":[[], [true,true,true,true]]}})
             }
+            // one field under an int() cast AND un-cast in the rows of a matrix-shaped sequence: a cell sees the
+            // field's own value (numeric TEXT stays text for the un-cast cells), whatever another cell did with it
+            "num" if mode == 7 && g.r.chance(1, 2) => {
+                let ent = |m: &str, f: &str, v: J| json!({"m":m,"c":0,"f":cps(f),"v":v});
+                let px = |t: &str| json!({"t":"pat","k":"exact","ic":false,"a":cps(t)});
+                let mut rows = vec![
+                    json!({"t":"map","es":[ent("int", "size", json!({"t":"num","n":int_node("5")})), ent("none", "g", px("x"))]}),
+                    json!({"t":"map","es":[ent("none", "size", json!({"t":"num","n":int_node("7")})), ent("none", "g", px("x"))]}),
+                    json!({"t":"map","es":[ent("none", "size", json!({"t":"cmp","op":"gt","n":int_node("100")})), ent("none", "g", px("x"))]}),
+                    json!({"t":"map","es":[ent("flt", "size", json!({"t":"cmp","op":"lt","n":flt_node("0.5")})), ent("none", "g", px("x"))]}),
+                ];
+                if g.r.chance(1, 2) { rows.swap(0, 1); }
+                if g.r.chance(1, 2) { rows.truncate(3); }
+                let cond = if g.r.chance(1, 4) { json!({"t":"not","e":{"t":"id","n":cps("A")}}) } else { json!({"t":"id","n":cps("A")}) };
+                let src = json!({"cond":cond,"ids":[[cps("A"),{"t":"seq","ms":rows}]]});
+                let vals = vec![s_node("7"), i_node("7"), s_node("5"), i_node("5"), s_node("200"), i_node("200"), s_node("0.25"), f_node("0.25"), s_node("x"), json!({"t":"B","b":true})];
+                let mut docs: Vec<J> = vals.into_iter().map(|v| obj(vec![("size".into(), v), ("g".into(), s_node("x"))])).collect();
+                docs.push(obj(vec![("g".into(), s_node("x"))]));
+                json!({"topic":"num","oracle":true,"wt":true,"src":src,"docs":docs,
+                       "plan":{"tri":true,"sws":[[], [true,true,true,true], [false,false,false,true], [true,false,false,true]]}})
+            }
             // str(f) == str(g) in the condition: the decimal text of every integer kind
             "num" if mode == 1 => {
                 let op = "eq";
